@@ -288,7 +288,7 @@ def write_items(path, setup, items):
 OUT_ITEM = re.compile(r"^#(\S+)(?: \d+)?$")
 
 
-def run_items(b, exe, d, name, setup, items, item_ms=3000, timeout=240):
+def run_items(b, exe, d, name, setup, items, item_ms=3000, timeout=240, max_rounds=14):
     """Run items through evalseq, restarting after a fatal event.  -> (dict idx -> record, fatal list, P0)"""
     path = os.path.join(d, name + ".items")
     write_items(path, setup, items)
@@ -298,7 +298,7 @@ def run_items(b, exe, d, name, setup, items, item_ms=3000, timeout=240):
     p0 = None
     nsetup = len(setup)
     rounds = 0
-    while skip < len(items) and rounds < 14:
+    while skip < len(items) and rounds < max_rounds:
         rounds += 1
         cmd = [exe, path, "--skip", str(skip + nsetup if skip else 0), "--item-ms", str(item_ms), "--heap", str(4 << 20), "--max", str(256 << 20)]
         if skip:
@@ -344,13 +344,14 @@ def run_items(b, exe, d, name, setup, items, item_ms=3000, timeout=240):
         if done and r.rc == 0 and not r.sanitizer_report() and not hc:
             break
         # fatal event: blame the last announced item
-        ev = {"idx": last, "how": "timeout" if (r.timed_out or r.rc == 77) else r.describe(), "sanitizer": r.sanitizer_report(),
+        ev = {"idx": last, "how": "timeout" if (r.timed_out or r.rc == 77) else r.describe(), "hard": r.rc == 77,
+              "sanitizer": r.sanitizer_report(),
               "stderr": r.err[-2500:], "heapcheck": hc[:3]}
         fatal.append(ev)
         if last is None:
             break
         skip = last + 1
-    if skip < len(items) and rounds >= 14:
+    if skip < len(items) and rounds >= max_rounds:
         fatal.append({"idx": skip, "how": "too-many-restarts", "skipped": len(items) - skip, "stderr": "", "sanitizer": None})
     return records, fatal, p0
 
@@ -445,9 +446,13 @@ def check(rep, tier, seed):
     numops1 = ["exact", "inexact", "sqrt", "exact-integer-sqrt", "log", "exp", "floor", "round", "truncate", "numerator",
                "denominator", "abs", "magnitude", "angle", "number->string", "exact-integer?", "nan?", "square"]
     items, meta = [], []
+    huge = ("4611686018427387904", "-4611686018427387904", "(expt 2 200)")
     for op in numops2:
         for a in numpool:
             for b_ in numpool:
+                # results of astronomical size are resource exhaustion by construction, not the subject here
+                if (op == "expt" and b_ in huge and a not in ("0", "1", "-1")) or (op == "arithmetic-shift" and b_ in huge):
+                    continue
                 items.append(("eval", "(%s %s %s)" % (op, a, b_)))
                 meta.append(("numeric", op))
     for op in numops1:
@@ -492,6 +497,8 @@ def check(rep, tier, seed):
 
     outcomes = {}
     probes = 0
+    stuck = []
+    setup_of = {id(f[2]): f[1] for f in files}
     for fam, items, meta, (records, fatal, p0) in R.pmap(run_file, list(enumerate(files))):
         for idx, rec in records.items():
             if idx >= len(meta):
@@ -512,6 +519,8 @@ def check(rep, tier, seed):
             item = items[idx][1][:1200] if idx is not None and idx < len(items) else None
             if ev["how"] == "timeout":
                 rep.inconc("watchdog", "%s %s: %s" % (f2, nm, (item or "")[:120]))
+                if ev.get("hard") and idx is not None and idx < len(items) and fam != "state-setter":
+                    stuck.append((f2, nm, items[idx][0], items[idx][1], setup_of[id(items)]))
                 continue
             if ev["how"] == "too-many-restarts":
                 rep.inconc("skipped-after-too-many-fatal-events", "%s: %d items" % (f2, ev.get("skipped", 0)))
@@ -528,6 +537,30 @@ def check(rep, tier, seed):
                 sig = {"check": "process-died", "how": ev["how"], "family": f2, "name": nm}
             rep.violation(sig, {"item": item, "mode": items[idx][0] if idx is not None and idx < len(items) else None,
                                 "stderr": ev["stderr"][-1800:], "sanitizer": san})
+    # ---- items that were stuck in uninterruptible C code: re-run alone with ten times the allowance before calling it a hang
+    stuck.sort(key=lambda t: (t[0], t[1], t[3]))
+    seen_names = set()
+    chosen = []
+    for t in stuck:                       # one representative per (family, procedure), bounded in the quick tier
+        if (t[0], t[1]) not in seen_names:
+            seen_names.add((t[0], t[1]))
+            chosen.append(t)
+    chosen = chosen[:(10 if tier == "quick" else 400)]
+
+    def rerun_stuck(it):
+        k, (f2, nm, mode, text, setup) = it
+        recs, fatal2, _ = run_items(b, exe, d, "stuck%d" % k, setup, [(mode, text)], item_ms=30000, timeout=200, max_rounds=1)
+        return (f2, nm, mode, text), recs, fatal2
+
+    for (f2, nm, mode, text), recs, fatal2 in R.pmap(rerun_stuck, list(enumerate(chosen))):
+        rep.case(("hang-recheck", f2, nm))
+        if any(ev.get("hard") for ev in fatal2):
+            rep.violation({"check": "hang", "family": f2, "name": nm},
+                          {"item": text[:800], "mode": mode, "note": "no result after 2 x 30 s alone; the VM's interrupt flag was set after 30 s "
+                           "and ignored, i.e. the item is looping in C code"})
+    rep.extra["stuck_items_rechecked"] = len(chosen)
+    rep.extra["stuck_items_seen"] = len(stuck)
+
     # ---- deep nesting, judged on the unsanitized (hooks) build with the default 8 MB C stack --------------------------
     bh = B.ensure("hooks")
     rep.builds.add("hooks")
